@@ -195,3 +195,58 @@ func vpReloadKeepsOwnership(prop string) {
 // BOUND: topology 0 with all but one address held by other pods; a statefulset pod (symbolic policy) bound and running; a standby instance of galaxy-ipam has an informer cache that stops following at that point; the pod is deleted, its event handled, the same-named pod re-created, bound by the active instance and running; then the standby takes over (new plugin, tables rebuilt from the shared store, but its lagging informer cache: it still holds the first incarnation) and runs one resync pass (and the pod-IP sync pass) before its cache catches up, then another one afterwards. The live pod keeps its IP throughout (the stale cache's answer has to be confirmed with the API server; one of the pass's pod GETs may fail at a symbolic position, answered as the real typed client does: an empty object plus the error)
 // ASSUME: C01: same scenario as VerifC04_q_failoverStaleCache, checked under C01
 func VerifC01_q_failoverStaleCache() { vpFailoverStaleCache("C01") }
+
+// BOUND: topology 0 (C10: with the cloud provider); a statefulset pod (symbolic policy) is created and filtered; its Bind on any approved node among n1,n5,n3 runs while, as a second logical thread inside any one window of that Bind (right before / after an API-server, provider or IPAM call; symbolic window 0..12), the pod is deleted (its delete event queued) and re-created under the same name with a new UID; then the queued events are handled, the re-created pod is scheduled if the binding did not reach it, and one more pod is scheduled. The API-server stub enforces the UID precondition of a Binding like the real one. No two live pods may hold one IP and every live bound pod must own its IP
+func VerifC01_q_bindVsRecreate() { vpBindVsRecreate("C01") }
+
+func vpBindVsRecreate(prop string) {
+	w := vpNewWorld(0, prop == "C10")
+	if err := w.configure(); err != nil {
+		return
+	}
+	w.wrapIPAM()
+	w.setStatefulSet(3)
+	policy := nondetPick("", "immutable", "never")
+	name := "ss-0"
+	w.createPod(vpMakePod(name, "U1", vpKindSts, policy, "", ""))
+	w.syncListers()
+	nodes, err := w.filter(name, "n1", "n5", "n3")
+	if err != nil || len(nodes) == 0 {
+		return
+	}
+	w.interferer = func() {
+		w.deletePod(name) // its event is queued
+		w.createPod(vpMakePod(name, "U2", vpKindSts, policy, "", ""))
+		w.syncListers()
+	}
+	w.windowAt = nondetInt(0, 12)
+	_ = w.bind(name, nodes[nondetChoice(len(nodes))]) // the scheduler's call carries the uid of the first incarnation
+	w.finishInterference()
+	if w.interferer != nil {
+		return
+	}
+	verifReach("recreated-inside-bind")
+	for len(w.pending) > 0 {
+		_ = w.handleEvent(0)
+	}
+	if p := w.pods[name]; p != nil && p.Spec.NodeName == "" {
+		if nodes, err := w.filter(name, "n1", "n5", "n3"); err == nil && len(nodes) > 0 {
+			_ = w.bind(name, nodes[nondetChoice(len(nodes))])
+		}
+	}
+	if p := w.pods[name]; p != nil && p.Spec.NodeName != "" {
+		w.setRunning(name)
+	}
+	w.syncListers()
+	w.checkAll(prop, "a Bind that overlapped the re-creation of the pod under the same name")
+	other := "ss-1"
+	w.createPod(vpMakePod(other, "V1", vpKindSts, "", "", ""))
+	w.syncListers()
+	if nodes, err := w.filter(other, "n1", "n5", "n3"); err == nil && len(nodes) > 0 {
+		if w.bind(other, nodes[0]) == nil {
+			w.setRunning(other)
+		}
+	}
+	w.syncListers()
+	w.checkAll(prop, "scheduling another pod afterwards")
+}
